@@ -8,11 +8,16 @@
                witnesses for the exception shapes (wrap at 2^32, stale yylloc on empty input)
  3 correspond  sequences of calls in ONE process  vs  each call first in a freshly forked process; canonical result
                (return value, exception class, diagnostics with path/line/column, document dump, supported methods);
-               UTAP::tracker.position is seeded near 2^31 and 2^32; the Lean driver predicts wrap-around behaviour
+               UTAP::tracker.position is seeded near 2^31 and 2^32; the Lean driver predicts wrap-around behaviour;
+               the working directory changes between calls (it is part of the input of a call that imports a library by a
+               relative name: both runs of the call are made in the same directory)
 """
+import hashlib
 import json
 import os
 import re
+import shutil
+import subprocess
 import sys
 
 from vlib import core
@@ -87,7 +92,7 @@ def xml_pool():
                 for i in (0, len(toks) // 2):
                     for t2, _ in M.faults_at(blk, blk.text, toks, i, kind)[:1]:
                         pool.append(("xml-fault", M.render(m, {blk.key: t2})))
-        pool.append(("xml-layout", M.render(m, {b.key: M.relayout(b.text, "comments", mi) for b in blocks})))
+        pool.append(("xml-layout", M.render(m, {b.key: M.relayout(b.text, "comments", mi, b.kind) for b in blocks})))
     good = M.render(seeds[0])
     pool.append(("xml-missing-ref", good.replace('<source ref="id3"/>', '<source ref="nope"/>', 1)))
     pool.append(("xml-truncated", good[:len(good) // 2]))
@@ -141,6 +146,85 @@ def call_pool():
     return pool
 
 
+# ---------------------------------------------------------------------------------------------------------------------
+# the working directory is input too: `import "<relative name>" { ... };` is resolved against the directory the process is in
+# WHEN THE CALL IS MADE.  Three directories: `lib` holds the libraries, `twin` holds another library under the same name
+# (it lacks the imported function), `plain` holds none.  A call made in one of them must give what it gives first in a fresh
+# process started in that directory -- wherever the process was when it parsed something earlier.
+# ---------------------------------------------------------------------------------------------------------------------
+EXT_SOURCES = {
+    "lib": {"libc15ext.so": "int c15_twice(int v) { return 2 * v; }\ndouble c15_half(double v) { return v / 2; }\n",
+            "sub/libc15sub.so": "int c15_sub(int v) { return v - 1; }\n"},
+    "twin": {"libc15ext.so": "int c15_other(int v) { return v; }\n"},
+    "plain": {},
+}
+EXT = {}        # directory name -> absolute path, filled by prepare_ext()
+IMPORT_DECLS = [
+    'import "libc15ext.so" { int c15_twice(int v); };',
+    'import "libc15ext" { int c15_twice(int v); half = double c15_half(double v); };',      # the library adds the extension itself
+    'import "./libc15ext.so" { int c15_twice(int v); };',
+    'import "sub/libc15sub.so" int c15_sub(int v);',
+    'import "libc15none.so" { int nothing(int v); };',                                       # in none of the directories
+]
+
+
+def prepare_ext():
+    """builds the three directories once per cache (they are named by the hash of their sources)"""
+    h = hashlib.sha256(json.dumps(EXT_SOURCES, sort_keys=True).encode()).hexdigest()[:12]
+    root = os.path.join(core.CACHE, "c15-ext-" + h)
+    if not os.path.exists(os.path.join(root, "done")):
+        tmp = "%s.tmp%d" % (root, os.getpid())
+        shutil.rmtree(tmp, ignore_errors=True)
+        for d, libs in EXT_SOURCES.items():
+            os.makedirs(os.path.join(tmp, d))
+            for rel, src in libs.items():
+                out = os.path.join(tmp, d, rel)
+                os.makedirs(os.path.dirname(out), exist_ok=True)
+                csrc = out + ".c"
+                open(csrc, "w").write(src)
+                subprocess.run(["gcc", "-shared", "-fPIC", "-o", out, csrc], check=True, stdout=subprocess.PIPE, stderr=subprocess.PIPE)
+                os.remove(csrc)
+        open(os.path.join(tmp, "done"), "w").write("ok\n")
+        try:
+            os.rename(tmp, root)
+        except OSError:
+            shutil.rmtree(tmp, ignore_errors=True)      # another run was faster
+    EXT.clear()
+    EXT.update({d: os.path.join(root, d) for d in EXT_SOURCES})
+    return root
+
+
+def import_pool():
+    pool = []
+    tail = "\nint y = 1;\nprocess P() { state S0; init S0; }\nsystem P;"
+    for decl in IMPORT_DECLS:
+        xml = ('<?xml version="1.0" encoding="utf-8"?>\n<nta>\n<declaration>%s\nint y = 1;</declaration>\n<template><name>Q</name>'
+               '<location id="id0"><name>L0</name></location><init ref="id0"/></template>\n<system>system Q;</system>\n</nta>\n'
+               % decl.replace("&", "&amp;").replace("<", "&lt;"))
+        pool += [{"tag": "import", "kind": "XTA", "a": 1, "b": 0, "input": decl + tail},
+                 {"tag": "import", "kind": "XML", "a": 1, "b": 0, "input": xml},
+                 {"tag": "import", "kind": "BLK", "a": 1, "b": 1, "input": decl + " int y;"},
+                 {"tag": "import", "kind": "TFI", "a": 1, "b": 0, "input": decl + tail},
+                 {"tag": "import", "kind": "XFI", "a": 1, "b": 0, "input": xml}]
+    return pool
+
+
+def gen_cwd_sequences(ctx, pool):
+    """every import call is made in each of the three directories, before and after a call of any other kind made somewhere else"""
+    r = ctx.rng
+    others = [c for c in pool if c["kind"] in ("XML", "XTA", "BLK", "QRY", "TFI", "XFI") and c["tag"] not in ("xml-fault",)]
+    seqs = []
+    for c in import_pool():
+        for _ in range(1 if not ctx.thorough else 6):
+            warm = r.choice(others)
+            # (1) the process has parsed something in another directory before it comes to the directory of the model
+            seqs.append({"class": "cwd", "items": [{"cwd": "plain"}, warm, {"cwd": "lib"}, c, {"cwd": "plain"}, c, {"cwd": "twin"}, c,
+                                                    {"cwd": "lib"}, c]})
+            # (2) the first call of the process is made in the directory of the model, the later ones elsewhere
+            seqs.append({"class": "cwd", "items": [{"cwd": "lib"}, c, {"cwd": "twin"}, warm, c, {"cwd": "plain"}, c]})
+    return seqs
+
+
 # a clean text that reads every piece of parser/lexer state an aborted or exception-ended parse could leave behind: array
 # declarators after a type-indexed dimension (`types`), chained transitions (`rootTransId`), comments (flex start condition)
 PROBE = ("const int N = 3; typedef int[0,N-1] id_t;\nint buf[N], head, tail; int grid[id_t][2]; /* c */ clock z;\n"
@@ -192,6 +276,8 @@ def script_of(seq):
     for item in seq:
         if "seed" in item:
             out.append("SEED %d\n" % item["seed"])
+        elif "cwd" in item:
+            out.append("CWD %s\n" % hexs(EXT[item["cwd"]]))
         else:
             out.append("CALL %s %d %d %s\n" % (item["kind"], item["a"], item["b"], hexs(item["input"])))
     return "".join(out)
@@ -314,7 +400,7 @@ def analyse(ctx, results, stats):
     """compare every call of every sequence with its fresh twin; classify the differences by shape"""
     seen = {}
     for seq, ((rc1, out1, err1), (rc2, out2, err2)) in results:
-        calls = [it for it in seq["items"] if "seed" not in it]
+        calls = [it for it in seq["items"] if "seed" not in it and "cwd" not in it]
         l1 = [l for l in out1.split("\n") if l.strip()]
         l2 = [l for l in out2.split("\n") if l.strip()]
         wrapped = False      # the counter has wrapped (or the wrap exception has been thrown) earlier in this process
@@ -398,12 +484,15 @@ def run(ctx):
     stats = {"calls": 0, "differences": 0, "by_tag": {}, "exceptions": {}, "calls_with_diagnostics": 0, "calls_crossing_2^31": 0,
              "calls_crossing_2^32": 0}
     wit = witness_sequences(pool)
-    seqs = wit + gen_state_sequences(ctx) + gen_sequences(ctx, pool)
+    prepare_ext()
+    state_seqs, random_seqs = gen_state_sequences(ctx), gen_sequences(ctx, pool)
+    cwd_seqs = gen_cwd_sequences(ctx, pool)
+    seqs = wit + state_seqs + cwd_seqs + random_seqs
     results = run_sequences(ctx, exe, seqs)
     seen = analyse(ctx, results, stats)
     run_interleaved(ctx, exe, stats)
     # a seeded sample under the sanitizers (fork is slow there)
-    sample = wit + gen_sequences(ctx, pool)[:(40 if not ctx.thorough else 400)]
+    sample = wit + cwd_seqs[:(6 if not ctx.thorough else 60)] + gen_sequences(ctx, pool)[:(40 if not ctx.thorough else 400)]
     stats_a = {"calls": 0, "differences": 0, "by_tag": {}, "exceptions": {}, "calls_with_diagnostics": 0, "calls_crossing_2^31": 0,
                "calls_crossing_2^32": 0}
     analyse(ctx, run_sequences(ctx, exe_asan, sample), stats_a)
@@ -451,7 +540,8 @@ def run(ctx):
     cov["difference_shapes"] = seen
     cov["rule"] = ("result of call i inside a sequence (one process) == result of the same call run first in a freshly forked process: return value, "
                    "exception class, diagnostics (message, path, line:column of both ends), canonical document dump, supported-methods verdict")
-    cov["samples"] = [{"class": s["class"], "calls": [(c.get("tag"), c.get("kind")) if "seed" not in c else ("SEED", c["seed"]) for c in s["items"]]}
+    cov["samples"] = [{"class": s["class"], "calls": [("SEED", c["seed"]) if "seed" in c else ("CWD", c["cwd"]) if "cwd" in c else (c.get("tag"), c.get("kind"))
+                                                      for c in s["items"]]}
                       for s in seqs[:2] + seqs[-2:]]
     ctx.assumptions += [
         "the scanner and parser themselves (flex/bison tables) are deterministic functions of the text and of the modelled globals",
@@ -470,6 +560,7 @@ def replay(ctx, path):
         return 1
     bp = core.build_repo("plain")
     exe = core.build_harness(bp, "c15p", ["c15.cpp"])
+    prepare_ext()
     (rc1, out1, err1), (rc2, out2, err2) = run_pair(exe, rep["sequence"])
     l1, l2 = [l for l in out1.split("\n") if l.strip()], [l for l in out2.split("\n") if l.strip()]
     bad = 0
